@@ -2,6 +2,7 @@ package main
 
 import (
 	"go/token"
+	"strings"
 )
 
 func (in *Interp) strLen(s *Str) *Term {
@@ -365,4 +366,142 @@ func (in *Interp) iteStr(c *Term, a, b *Str) *Str {
 		alts = append(alts, x)
 	}
 	return normStr(tf, alts)
+}
+
+// ---- search over byte vectors (strings.Index and friends) ------------------
+
+// altIndex: index of the first (last) occurrence of sub in s, -1 if absent, as a 64-bit term.
+func (in *Interp) altIndex(s, sub *SAlt, last bool) *Term {
+	tf := in.tf
+	n, m := s.Len(), sub.Len()
+	if s.Sym == nil && sub.Sym == nil {
+		if last {
+			return tf.BV(64, uint64(int64(strings.LastIndex(s.S, sub.S))))
+		}
+		return tf.BV(64, uint64(int64(strings.Index(s.S, sub.S))))
+	}
+	r := tf.BV(64, ^uint64(0))
+	if m > n {
+		return r
+	}
+	at := func(i int) *Term {
+		c := tf.T
+		for k := 0; k < m; k++ {
+			c = tf.And(c, tf.Eq(s.ByteAt(tf, i+k), sub.ByteAt(tf, k)))
+			if c.IsFalse() {
+				break
+			}
+		}
+		return c
+	}
+	if last {
+		for i := 0; i <= n-m; i++ {
+			r = tf.Ite(at(i), tf.BV(64, uint64(i)), r)
+		}
+	} else {
+		for i := n - m; i >= 0; i-- {
+			r = tf.Ite(at(i), tf.BV(64, uint64(i)), r)
+		}
+	}
+	return r
+}
+
+func (in *Interp) strIndexOf(s, sub *Str, last bool) *Term {
+	tf := in.tf
+	var r *Term
+	for i := range s.Alts {
+		for j := range sub.Alts {
+			g := tf.And(s.Alts[i].G, sub.Alts[j].G)
+			if g.IsFalse() {
+				continue
+			}
+			v := in.altIndex(&s.Alts[i], &sub.Alts[j], last)
+			if r == nil {
+				r = v
+			} else {
+				r = tf.Ite(g, v, r)
+			}
+		}
+	}
+	if r == nil {
+		r = tf.BV(64, ^uint64(0))
+	}
+	return r
+}
+
+// strIndexAny: first (last) position holding one of the ASCII bytes of chars (concrete), -1 if none.
+func (in *Interp) strIndexAny(s *Str, chars string, last bool) *Term {
+	tf := in.tf
+	var r *Term
+	for i := range s.Alts {
+		a := &s.Alts[i]
+		v := tf.BV(64, ^uint64(0))
+		hit := func(k int) *Term {
+			c := tf.F
+			for x := 0; x < len(chars); x++ {
+				c = tf.Or(c, tf.Eq(a.ByteAt(tf, k), tf.BV(8, uint64(chars[x]))))
+			}
+			return c
+		}
+		if last {
+			for k := 0; k < a.Len(); k++ {
+				v = tf.Ite(hit(k), tf.BV(64, uint64(k)), v)
+			}
+		} else {
+			for k := a.Len() - 1; k >= 0; k-- {
+				v = tf.Ite(hit(k), tf.BV(64, uint64(k)), v)
+			}
+		}
+		if r == nil {
+			r = v
+		} else {
+			r = tf.Ite(a.G, v, r)
+		}
+	}
+	if r == nil {
+		r = tf.BV(64, ^uint64(0))
+	}
+	return r
+}
+
+func isASCII(s string) bool {
+	for i := 0; i < len(s); i++ {
+		if s[i] >= 0x80 {
+			return false
+		}
+	}
+	return true
+}
+
+// strCut: strings.Cut as guarded alternatives (one per position of the separator).
+func (in *Interp) strCut(s, sep *Str) (*Str, *Str, *Term) {
+	tf := in.tf
+	var before, after []SAlt
+	found := tf.F
+	for i := range s.Alts {
+		for j := range sep.Alts {
+			g := tf.And(s.Alts[i].G, sep.Alts[j].G)
+			if g.IsFalse() {
+				continue
+			}
+			a, p := &s.Alts[i], &sep.Alts[j]
+			idx := in.altIndex(a, p, false)
+			bs := a.Bytes(tf)
+			for k := 0; k+p.Len() <= a.Len(); k++ {
+				gk := tf.And(g, tf.Eq(idx, tf.BV(64, uint64(k))))
+				if gk.IsFalse() {
+					continue
+				}
+				found = tf.Or(found, gk)
+				before = append(before, mkAlt(gk, append([]*Term{}, bs[:k]...)))
+				after = append(after, mkAlt(gk, append([]*Term{}, bs[k+p.Len():]...)))
+			}
+			gn := tf.And(g, tf.Eq(idx, tf.BV(64, ^uint64(0))))
+			if !gn.IsFalse() {
+				before = append(before, mkAlt(gn, append([]*Term{}, bs...)))
+				after = append(after, mkAlt(gn, nil))
+			}
+		}
+	}
+	return normStr(tf, before), normStr(tf, after), found
 }
